@@ -57,6 +57,13 @@ type fcallRequest struct {
 	err      chan error
 }
 
+// outgoing is a tagged request on its way to the connection.
+type outgoing struct {
+	req   *fcallRequest
+	fcall *Fcall
+	err   error // set by the writer if the write failed
+}
+
 func newFcallRequest(ctx context.Context, msg Message) *fcallRequest {
 	return &fcallRequest{
 		ctx:      ctx,
@@ -137,6 +144,10 @@ func (t *transport) handle() {
 		// outstanding provides a map of tags to outstanding requests.
 		outstanding = map[Tag]*fcallRequest{}
 		selected    Tag
+		// requests in the order they were tagged, waiting for the writer
+		queue  []*outgoing
+		writes = make(chan *outgoing)
+		failed = make(chan *outgoing)
 	)
 
 	// loop to read messages off of the connection
@@ -173,7 +184,39 @@ func (t *transport) handle() {
 		}
 	}()
 
+	// loop to write messages to the connection. The dispatcher below must
+	// never block on the wire: while it did, the reader above could not hand
+	// over a reply, so the peer's writes stalled, and with them the peer's
+	// reads of what is being written here - with enough concurrent callers
+	// on a connection without buffering nobody moved any more.
+	go func() {
+		for {
+			select {
+			case <-t.closed:
+				return
+			case out := <-writes:
+				if err := t.ch.WriteFcall(out.req.ctx, out.fcall); err != nil {
+					out.err = err
+					select {
+					case <-t.closed:
+						return
+					case failed <- out:
+					}
+				}
+			}
+		}
+	}()
+
 	for {
+		// offer the oldest queued request to the writer, if there is one
+		var (
+			next chan *outgoing
+			head *outgoing
+		)
+		if len(queue) > 0 {
+			next, head = writes, queue[0]
+		}
+
 		select {
 		case req := <-t.requests:
 			var err error
@@ -191,10 +234,16 @@ func (t *transport) handle() {
 			// receive a response. We need to remove the fcall context from
 			// the tag map and dealloc the tag. We may also want to send a
 			// flush for the tag.
-			if err := t.ch.WriteFcall(req.ctx, fcall); err != nil {
-				delete(outstanding, fcall.Tag)
-				req.err <- err
+			queue = append(queue, &outgoing{req: req, fcall: fcall})
+		case next <- head:
+			queue = queue[1:]
+		case out := <-failed:
+			// the tag may have been answered, freed and handed to another
+			// request in the meantime
+			if outstanding[out.fcall.Tag] == out.req {
+				delete(outstanding, out.fcall.Tag)
 			}
+			out.req.err <- out.err
 		case b := <-responses:
 			req, ok := outstanding[b.Tag]
 			if !ok {
